@@ -3,6 +3,7 @@ package c01
 import (
 	"bufio"
 	"bytes"
+	"io"
 	"net/http/httptest"
 	"os"
 	"regexp"
@@ -95,8 +96,16 @@ func caseLabels(file string, line int) string {
 	return strings.Join(labels, ">")
 }
 
-func servePost(ts *seam.TS, body []byte) (res seam.Result) {
+// servePost delivers body as a POST; with chunked the request announces no length
+// (Transfer-Encoding: chunked, ContentLength -1), as a streaming client or a re-chunking
+// redirector sends it.
+func servePost(ts *seam.TS, body []byte, chunked bool) (res seam.Result) {
 	req := httptest.NewRequest("POST", "/", bytes.NewReader(body))
+	if chunked {
+		req = httptest.NewRequest("POST", "/", struct{ io.Reader }{bytes.NewReader(body)})
+		req.ContentLength = -1
+		req.TransferEncoding = []string{"chunked"}
+	}
 	req.RemoteAddr = "10.9.8.7:5555"
 	rec := httptest.NewRecorder()
 	defer func() {
